@@ -63,6 +63,16 @@ func init() {
 type Coin uint64
 
 func ParseZCN(c float64) (Coin, error) {
+	// decimal.NewFromFloat panics on NaN and infinities
+	if c != c {
+		return 0, ErrNotANumber
+	}
+	if math.IsInf(c, 0) {
+		if c < 0 {
+			return 0, ErrNegativeValue
+		}
+		return 0, ErrTooLarge
+	}
 	d := decimal.NewFromFloat(c)
 	if d.Sign() == -1 {
 		return 0, ErrNegativeValue
